@@ -124,8 +124,11 @@ func flattenString(e *Env, v ssa.Value, sep string, heads *[]string, depth int, 
 			return flattenString(e, x.X, sep, heads, depth+1, loopPhi) + flattenString(e, x.Y, sep, heads, depth+1, loopPhi)
 		}
 	case *ssa.Call:
-		if CalleeName(x) == "encoding/hex.EncodeToString" {
+		switch CalleeName(x) {
+		case "encoding/hex.EncodeToString":
 			return "X"
+		case "(*bytes.Buffer).Bytes", "(*bytes.Buffer).String", "(*strings.Builder).String":
+			return flattenBuffer(e, x.Call.Args[0], sep, heads, depth+1, loopPhi)
 		}
 	case *ssa.Parameter:
 		if a, pe := e.actual(x); a != nil {
@@ -165,6 +168,88 @@ func flattenString(e *Env, v ssa.Value, sep string, heads *[]string, depth int, 
 	return "?"
 }
 
+// flattenBuffer: the content of a local bytes.Buffer / strings.Builder is what was written into it, in program order; writes
+// inside a loop repeat. Any other use of the buffer (handed to other code) makes the content unknown.
+func flattenBuffer(e *Env, buf ssa.Value, sep string, heads *[]string, depth int, loopPhi map[*ssa.Phi]bool) string {
+	al, ok := buf.(*ssa.Alloc)
+	if !ok || al.Referrers() == nil {
+		return "?"
+	}
+	type wr struct {
+		call  *ssa.Call
+		shape string
+		loop  bool
+	}
+	var ws []wr
+	inCycle := func(b *ssa.BasicBlock) bool {
+		for _, sc := range b.Succs {
+			if sc == b || reachableAvoiding(sc, b, nil) {
+				return true
+			}
+		}
+		return false
+	}
+	for _, ref := range *al.Referrers() {
+		call, ok := ref.(*ssa.Call)
+		if !ok {
+			if _, isDbg := ref.(*ssa.DebugRef); isDbg {
+				continue
+			}
+			return "?"
+		}
+		if len(call.Call.Args) == 0 || call.Call.Args[0] != ssa.Value(al) {
+			return "?"
+		}
+		name := CalleeName(call)
+		m := name[strings.LastIndex(name, ".")+1:]
+		if !strings.HasPrefix(name, "(*bytes.Buffer).") && !strings.HasPrefix(name, "(*strings.Builder).") {
+			return "?"
+		}
+		shape := ""
+		switch m {
+		case "WriteString":
+			shape = flattenString(e, call.Call.Args[1], sep, heads, depth+1, loopPhi)
+		case "WriteByte", "WriteRune":
+			shape = "?"
+			if k, ok := constInt(call.Call.Args[1]); ok && len(sep) == 1 && k == int64(sep[0]) {
+				shape = "S"
+			}
+		case "Write":
+			shape = "?"
+			if cv, ok := call.Call.Args[1].(*ssa.Convert); ok {
+				shape = flattenString(e, cv.X, sep, heads, depth+1, loopPhi)
+			}
+		case "Bytes", "String", "Len", "Grow", "Cap":
+			continue
+		default:
+			return "?"
+		}
+		ws = append(ws, wr{call, shape, inCycle(call.Block())})
+	}
+	sort.Slice(ws, func(i, j int) bool {
+		bi, bj := ws[i].call.Block().Index, ws[j].call.Block().Index
+		if bi != bj {
+			return bi < bj
+		}
+		return indexIn(ws[i].call) < indexIn(ws[j].call)
+	})
+	out := ""
+	for i := 0; i < len(ws); {
+		if !ws[i].loop {
+			out += ws[i].shape
+			i++
+			continue
+		}
+		grp := ""
+		for i < len(ws) && ws[i].loop {
+			grp += ws[i].shape
+			i++
+		}
+		out += "(" + grp + ")*"
+	}
+	return out
+}
+
 var encoderShape = regexp.MustCompile(`^H(SX|\(SX\)\*)*$`)
 
 func c10r1(c *Ctx) {
@@ -202,13 +287,18 @@ func c10r1(c *Ctx) {
 				seen[construct] = true
 				continue
 			}
-			cv, ok := st.Val.(*ssa.Convert)
-			if !ok {
-				c.Fail(rule, "violation", FuncName(st.Parent()), construct, pos, "Data is not []byte(<string>): "+s.Env.Term(st.Val))
+			var dataString ssa.Value
+			if cv, ok := st.Val.(*ssa.Convert); ok {
+				dataString = cv.X
+			} else if bc, ok := st.Val.(*ssa.Call); ok && CalleeName(bc) == "(*bytes.Buffer).Bytes" {
+				dataString = bc // the bytes of a local buffer: what was written into it
+			}
+			if dataString == nil {
+				c.Fail(rule, "violation", FuncName(st.Parent()), construct, pos, "Data is not []byte(<string>) nor the bytes of a local buffer: "+s.Env.Term(st.Val))
 				continue
 			}
 			var heads []string
-			shape := flattenString(s.Env, cv.X, sep, &heads, 0, map[*ssa.Phi]bool{})
+			shape := flattenString(s.Env, dataString, sep, &heads, 0, map[*ssa.Phi]bool{})
 			key := construct + " " + shape + " " + strings.Join(heads, ",")
 			if seen[key] {
 				continue
